@@ -92,7 +92,9 @@ RECURSIVE PermSeqs(_)
 PermSeqs(S) == IF S = {} THEN { <<>> } ELSE UNION { { <<i>> \o p : p \in PermSeqs(S \ {i}) } : i \in S }
 Perms(n) == PermSeqs(1..n)
 
-RECURSIVE HND(_, _, _, _, _)
+\* lim = [pl |-> permutation limit, dn |-> 2 * depth factor, nb |-> number of blank nodes]: the non-standard safeguards.
+\* They never change a result; `tox` only records whether a limit was exceeded somewhere in the run.
+RECURSIVE HND(_, _, _, _, _, _, _)
 \* first phase of one permutation (5.4.4): returns [iss, path, rec]
 RECURSIVE Phase1(_, _, _, _, _, _)
 Phase1(canon, p, i, iss, path, rec) ==
@@ -103,13 +105,13 @@ Phase1(canon, p, i, iss, path, rec) ==
                 iss2 == Issue(iss, r)
             IN Phase1(canon, p, i + 1, iss2, path \o <<95, 58>> \o IdOf(iss2, r), IF isNew THEN Append(rec, r) ELSE rec)
 \* second phase (5.4.5)
-RECURSIVE Phase2(_, _, _, _, _, _, _)
-Phase2(D, h1, canon, rec, i, iss, path) ==
-  IF i > Len(rec) THEN [iss |-> iss, path |-> path]
+RECURSIVE Phase2(_, _, _, _, _, _, _, _, _, _)
+Phase2(D, h1, canon, rec, i, iss, path, lim, depth, tox) ==
+  IF i > Len(rec) THEN [iss |-> iss, path |-> path, tox |-> tox]
   ELSE LET r == rec[i]
-           res == HND(D, h1, canon, r, iss)
+           res == HND(D, h1, canon, r, iss, lim, depth + 1)
        IN Phase2(D, h1, canon, rec, i + 1, res.iss,
-                 path \o <<95, 58>> \o IdOf(iss, r) \o <<60>> \o res.hash \o <<62>>)
+                 path \o <<95, 58>> \o IdOf(iss, r) \o <<60>> \o res.hash \o <<62>>, lim, depth, tox \/ res.tox)
 \* related-hash groups of identifier: sequence of [rh, list]
 RelatedPairs(D, h1, canon, id, issuer) ==
   LET qs == QuadsOf(D, id)
@@ -120,22 +122,26 @@ RelatedPairs(D, h1, canon, id, issuer) ==
                               LAMBDA x : x.rh # <<>>)
   IN Concat([i \in 1..Len(qs) |-> pairsOf(qs[i])])
 \* process groups in hash order (step 5), threading issuer and data
-RECURSIVE Groups(_, _, _, _, _, _, _, _)
-Groups(D, h1, canon, pairs, hashes, gi, issuer, data) ==
-  IF gi > Len(hashes) THEN [hash |-> Hash(data), iss |-> issuer]
+RECURSIVE Groups(_, _, _, _, _, _, _, _, _, _, _)
+Groups(D, h1, canon, pairs, hashes, gi, issuer, data, lim, depth, tox) ==
+  IF gi > Len(hashes) THEN [hash |-> Hash(data), iss |-> issuer, tox |-> tox]
   ELSE LET rh == hashes[gi]
            list == SelectSeq(pairs, LAMBDA x : x.rh = rh)
            n == Len(list)
            cand == { LET p == [i \in 1..n |-> list[f[i]].b]
                          a == Phase1(canon, p, 1, issuer, <<>>, <<>>)
-                         b == Phase2(D, h1, canon, a.rec, 1, a.iss, a.path)
-                     IN b : f \in Perms(n) }
-           best == CHOOSE c \in cand : \A d \in cand : ~Less(d.path, c.path)
-       IN Groups(D, h1, canon, pairs, hashes, gi + 1, best.iss, data \o rh \o best.path)
-HND(D, h1, canon, id, issuer) ==
+                         b == Phase2(D, h1, canon, a.rec, 1, a.iss, a.path, lim, depth, FALSE)
+                     IN b : f \in IF n > 7 THEN {} ELSE Perms(n) }
+           \* a list beyond the model's own reach (> 7) is toxic for every setting used; no result is computed for it
+           best == IF cand = {} THEN [iss |-> issuer, path |-> <<>>, tox |-> TRUE]
+                   ELSE CHOOSE c \in cand : \A d \in cand : ~Less(d.path, c.path)
+           anyTox == \E c \in cand : c.tox
+       IN Groups(D, h1, canon, pairs, hashes, gi + 1, best.iss, data \o rh \o best.path, lim, depth,
+                 tox \/ anyTox \/ n > lim.pl \/ cand = {})
+HND(D, h1, canon, id, issuer, lim, depth) ==
   LET pairs == RelatedPairs(D, h1, canon, id, issuer)
       hashes == SetToSortedSeq({pairs[i].rh : i \in 1..Len(pairs)})
-  IN Groups(D, h1, canon, pairs, hashes, 1, issuer, <<>>)
+  IN Groups(D, h1, canon, pairs, hashes, 1, issuer, <<>>, lim, depth, 2 * depth > lim.dn * lim.nb)
 
 \* step 4 and 5 over first-degree hash groups, in hash order
 RECURSIVE IssueAll(_, _, _)
@@ -150,21 +156,29 @@ Step4(D, h1, hs, i, canon) ==
 RECURSIVE SortByHash(_)
 SortByHash(S) == IF S = {} THEN <<>>
                  ELSE LET m == CHOOSE x \in S : \A y \in S : ~Less(y.hash, x.hash) IN <<m>> \o SortByHash(S \ {m})
-RECURSIVE Step5(_, _, _, _, _, _)
-Step5(D, h1, hs, i, canon, skip521) ==
-  IF i > Len(hs) THEN canon
+RECURSIVE Step5(_, _, _, _, _, _, _, _)
+\* returns [canon, tox, tie]; tie = two results of one group had the same hash (step 5.3 leaves their order open)
+Step5(D, h1, hs, i, canon, skip521, lim, acc) ==
+  IF i > Len(hs) THEN [canon |-> canon, tox |-> acc.tox, tie |-> acc.tie]
   ELSE LET grp == {b \in BN(D) : h1[b] = hs[i]} IN
-       IF Cardinality(grp) = 1 THEN Step5(D, h1, hs, i + 1, canon, skip521)
+       IF Cardinality(grp) = 1 THEN Step5(D, h1, hs, i + 1, canon, skip521, lim, acc)
        ELSE LET todo == IF skip521 THEN {b \in grp : ~Has(canon, b)} ELSE grp
-                resSet == { LET r == HND(D, h1, canon, n, Issue(NewIssuer(BPre), n)) IN [hash |-> r.hash, iss |-> r.iss, n |-> n] : n \in todo }
+                resSet == { LET r == HND(D, h1, canon, n, Issue(NewIssuer(BPre), n), lim, 0) IN [hash |-> r.hash, iss |-> r.iss, n |-> n, tox |-> r.tox] : n \in todo }
                 resSeq == SortByHash(resSet)
-            IN Step5(D, h1, hs, i + 1, IssueResults(canon, resSeq, 1), skip521)
-Canonical(D, skip521) ==
+                tie == \E x, y \in resSet : x.n # y.n /\ x.hash = y.hash
+            IN Step5(D, h1, hs, i + 1, IssueResults(canon, resSeq, 1), skip521, lim,
+                     [tox |-> acc.tox \/ \E x \in resSet : x.tox, tie |-> acc.tie \/ tie])
+NoLimit(D) == [pl |-> 99, dn |-> 99, nb |-> Cardinality(BN(D))]
+CanonicalRun(D, skip521, lim) ==
   LET h1 == [b \in BN(D) |-> H1(D, b)]
       hs == SetToSortedSeq({h1[b] : b \in BN(D)})
       c4 == Step4(D, h1, hs, 1, NewIssuer(C14N))
-  IN Step5(D, h1, hs, 1, c4, skip521)
+  IN Step5(D, h1, hs, 1, c4, skip521, lim, [tox |-> FALSE, tie |-> FALSE])
+Canonical(D, skip521) == CanonicalRun(D, skip521, NoLimit(D)).canon
 Relabel(t, canon) == IF IsB(t) THEN [k |-> "b", v |-> IdOf(canon, t.v)] ELSE t
+DocOf(D, canon) ==
+  LET lines == { Line(<<Relabel(D[i][1], canon), D[i][2], Relabel(D[i][3], canon), Relabel(D[i][4], canon)>>) : i \in 1..Len(D) }
+  IN Concat(SetToSortedSeq(lines))
 CanonDoc(D, skip521) ==
   LET canon == Canonical(D, skip521)
       lines == { Line(<<Relabel(D[i][1], canon), D[i][2], Relabel(D[i][3], canon), Relabel(D[i][4], canon)>>) : i \in 1..Len(D) }
